@@ -203,6 +203,7 @@ func (c *conn) send(msg *kmip.ResponseMessage) error {
 		return err
 	}
 	tx := c.tx.Load().(chan txMsg)
+	verifYield("kmipserver.conn.send.loaded")
 	errCh := make(chan error)
 	select {
 	case tx <- txMsg{msg: msg, err: errCh}:
